@@ -97,6 +97,26 @@ fn main() {
             driver::replay_file(&path, &|p, t| checks::get(p, t))
         }
         Some("selftest") => checks::selftest(seed),
+        Some("hashes") => {
+            // simcheck hashes <PROP> <batch_idx> <from> <to>
+            let prop = args.get(2).cloned().unwrap_or_default();
+            let bi: usize = args.get(3).and_then(|s| s.parse().ok()).unwrap_or(0);
+            let from: u64 = args.get(4).and_then(|s| s.parse().ok()).unwrap_or(0);
+            let to: u64 = args.get(5).and_then(|s| s.parse().ok()).unwrap_or(100);
+            match checks::get(&prop, "quick") {
+                Some(c) if bi < c.batches.len() => {
+                    for (i, h, o) in driver::hashes(&c, bi, from, to, seed) {
+                        let mut oh: u64 = 0xcbf29ce484222325;
+                        for b in &o {
+                            oh = (oh ^ *b as u64).wrapping_mul(0x100000001b3);
+                        }
+                        stdout_line(&format!("{} {:016x} {:016x}", i, h, oh));
+                    }
+                    0
+                }
+                _ => 2,
+            }
+        }
         Some("one") => {
             // debug: simcheck one <PROP> <batch_idx> <run_idx> [tier]
             let prop = args.get(2).cloned().unwrap_or_default();
